@@ -4,6 +4,7 @@ import (
 	_ "embed"
 	"encoding/json"
 	"fmt"
+	"go/token"
 	"go/types"
 	"os"
 	"sort"
@@ -37,24 +38,57 @@ type anchorFP struct {
 	Blocks  int      `json:"blocks"`
 }
 
-func fingerprint(fn *ssa.Function) anchorFP {
-	fp := anchorFP{Pkg: funcPkgPath(fn), Blocks: len(fn.Blocks)}
+// namelessTuple drops parameter / result names: renaming a parameter is not a change of signature.
+func namelessTuple(t *types.Tuple) *types.Tuple {
+	if t == nil {
+		return nil
+	}
+	vars := make([]*types.Var, t.Len())
+	for i := range vars {
+		vars[i] = types.NewVar(token.NoPos, nil, "", t.At(i).Type())
+	}
+	return types.NewTuple(vars...)
+}
+
+// anchorUnit is a function as seen by rename tracking. Generic functions appear twice: every
+// instance (the code that is analysed) under its own id, and the generic origin — which has no body
+// of its own in the program — under the origin's id with the body of its first instance.
+type anchorUnit struct {
+	ID   string
+	Fn   *ssa.Function // the function that answers to ID
+	Body *ssa.Function // where the callees are taken from
+}
+
+func (p *Program) anchorUnits() []anchorUnit {
+	var out []anchorUnit
+	seenOrigin := map[*ssa.Function]bool{}
+	for _, fn := range p.Funcs {
+		if fn.Parent() != nil {
+			continue
+		}
+		if fn.Synthetic != "" && fn.Origin() == nil {
+			continue
+		}
+		out = append(out, anchorUnit{funcID(fn), fn, fn})
+		if o := fn.Origin(); o != nil && !seenOrigin[o] {
+			seenOrigin[o] = true
+			if _, isSrc := p.funcByID[funcID(o)]; !isSrc {
+				out = append(out, anchorUnit{funcID(o), o, fn})
+			}
+		}
+	}
+	return out
+}
+
+func fingerprint(fn *ssa.Function) anchorFP { return fingerprintOf(fn, fn) }
+
+func fingerprintOf(fn, body *ssa.Function) anchorFP {
+	fp := anchorFP{Pkg: funcPkgPath(fn), Blocks: len(body.Blocks)}
 	if r := fn.Signature.Recv(); r != nil {
 		fp.Recv = types.TypeString(r.Type(), nil)
 	}
-	// parameter and result *types* only: renaming a parameter must not change the fingerprint
 	sig := fn.Signature
-	var ps, rs []string
-	for i := 0; i < sig.Params().Len(); i++ {
-		ps = append(ps, types.TypeString(sig.Params().At(i).Type(), nil))
-	}
-	for i := 0; i < sig.Results().Len(); i++ {
-		rs = append(rs, types.TypeString(sig.Results().At(i).Type(), nil))
-	}
-	fp.Sig = "func(" + strings.Join(ps, ", ") + ") (" + strings.Join(rs, ", ") + ")"
-	if sig.Variadic() {
-		fp.Sig += " variadic"
-	}
+	fp.Sig = types.TypeString(types.NewSignatureType(nil, nil, nil, namelessTuple(sig.Params()), namelessTuple(sig.Results()), sig.Variadic()), nil)
 	set := map[string]bool{}
 	var walk func(f *ssa.Function)
 	walk = func(f *ssa.Function) {
@@ -69,7 +103,7 @@ func fingerprint(fn *ssa.Function) anchorFP {
 			walk(af)
 		}
 	}
-	walk(fn)
+	walk(body)
 	for k := range set {
 		fp.Callees = append(fp.Callees, k)
 	}
@@ -79,14 +113,11 @@ func fingerprint(fn *ssa.Function) anchorFP {
 
 func genAnchors(p *Program, path string) error {
 	out := map[string]anchorFP{}
-	for _, fn := range p.Funcs {
-		if fn.Parent() != nil || isNonProductPkg(funcPkgPath(fn)) {
+	for _, u := range p.anchorUnits() {
+		if isNonProductPkg(funcPkgPath(u.Fn)) {
 			continue
 		}
-		if fn.Synthetic != "" {
-			continue
-		}
-		out[funcID(fn)] = fingerprint(fn)
+		out[u.ID] = fingerprintOf(u.Fn, u.Body)
 	}
 	b, err := json.MarshalIndent(out, "", " ")
 	if err != nil {
@@ -103,72 +134,175 @@ func jaccard(a, b []string) float64 {
 	for _, x := range a {
 		set[x] = true
 	}
-	inter := 0
+	bset := map[string]bool{}
 	for _, x := range b {
+		bset[x] = true
+	}
+	inter := 0
+	for x := range bset {
 		if set[x] {
 			inter++
 		}
 	}
-	union := len(a) + len(b) - inter
+	union := len(set) + len(bset) - inter
 	if union == 0 {
 		return 1
 	}
 	return float64(inter) / float64(union)
 }
 
+func isIdentByte(c byte) bool {
+	return c == '_' || (c >= '0' && c <= '9') || (c >= 'a' && c <= 'z') || (c >= 'A' && c <= 'Z')
+}
+
+// pkgIdents calls f for every occurrence `<pkg>.<Ident>` in s (a type string, callee id or function
+// id) and returns s with the identifiers for which f returns true replaced by "?".
+func pkgIdents(s, pkg string, f func(name string) bool) string {
+	var out strings.Builder
+	for i := 0; i < len(s); {
+		j := strings.Index(s[i:], pkg+".")
+		if j < 0 {
+			out.WriteString(s[i:])
+			break
+		}
+		j += i
+		k := j + len(pkg) + 1
+		e := k
+		for e < len(s) && isIdentByte(s[e]) {
+			e++
+		}
+		// the package path must not be the tail of a longer path
+		startOK := j == 0 || !(isIdentByte(s[j-1]) || s[j-1] == '/' || s[j-1] == '.' || s[j-1] == '-')
+		out.WriteString(s[i:k])
+		if startOK && e > k && f(s[k:e]) {
+			out.WriteString("?")
+		} else {
+			out.WriteString(s[k:e])
+		}
+		i = e
+	}
+	return out.String()
+}
+
 // resolveRenames fills p.funcByID for recorded functions that disappeared under their name.
+//
+// A recorded function and a candidate are compared modulo renames: parameter names are not part of
+// the signature; identifiers of the function's own package that exist in only one of the two trees
+// (a renamed receiver or parameter type, a renamed callee) compare as a placeholder; callees that
+// were already matched in an earlier round compare under their recorded identity.
 func (p *Program) resolveRenames() {
 	var recorded map[string]anchorFP
 	if len(anchorsJSON) == 0 || json.Unmarshal(anchorsJSON, &recorded) != nil {
 		return
 	}
 	p.alias = map[*ssa.Function]string{}
-	// functions of the current tree that are not recorded (new names), per package
-	added := map[string][]*ssa.Function{}
-	for _, fn := range p.Funcs {
-		if fn.Parent() != nil || fn.Synthetic != "" {
-			continue
+	units := p.anchorUnits()
+	present := map[string]bool{}
+	for _, u := range units {
+		present[u.ID] = true
+	}
+	// identifiers known per package in the recorded tree / declared in the current tree
+	oldNames := map[string]map[string]bool{}
+	note := func(pkg, s string) {
+		if oldNames[pkg] == nil {
+			oldNames[pkg] = map[string]bool{}
 		}
-		if _, ok := recorded[funcID(fn)]; !ok {
-			added[funcPkgPath(fn)] = append(added[funcPkgPath(fn)], fn)
+		pkgIdents(s, pkg, func(n string) bool { oldNames[pkg][n] = true; return false })
+	}
+	for id, fp := range recorded {
+		note(fp.Pkg, id)
+		note(fp.Pkg, fp.Recv)
+		note(fp.Pkg, fp.Sig)
+		for _, c := range fp.Callees {
+			note(fp.Pkg, c)
+		}
+	}
+	declaredNow := func(pkg, name string) bool {
+		if pk := p.ByPath[pkg]; pk != nil && pk.Types != nil {
+			return pk.Types.Scope().Lookup(name) != nil
+		}
+		return true
+	}
+	normOld := func(pkg, s string) string {
+		return pkgIdents(s, pkg, func(n string) bool { return !declaredNow(pkg, n) })
+	}
+	normNew := func(pkg, s string) string {
+		return pkgIdents(s, pkg, func(n string) bool { return !oldNames[pkg][n] })
+	}
+	normList := func(pkg string, l []string, norm func(pkg, s string) string) []string {
+		out := make([]string, len(l))
+		for i, x := range l {
+			out[i] = norm(pkg, x)
+		}
+		return out
+	}
+	shortName := func(id string) string {
+		if i := strings.LastIndex(id, "."); i >= 0 {
+			return id[i+1:]
+		}
+		return id
+	}
+	// functions of the current tree that are not recorded (new names), per package
+	added := map[string][]anchorUnit{}
+	for _, u := range units {
+		if _, ok := recorded[u.ID]; !ok {
+			added[funcPkgPath(u.Fn)] = append(added[funcPkgPath(u.Fn)], u)
 		}
 	}
 	var missing []string
 	for id := range recorded {
-		if _, ok := p.funcByID[id]; !ok {
+		if !present[id] {
 			missing = append(missing, id)
 		}
 	}
 	sort.Strings(missing)
 	taken := map[*ssa.Function]bool{}
-	// round 0: same receiver type; round 1: a method whose receiver was dropped (method -> function
-	// conversion keeps the parameter list only if the receiver was unused)
-	for round := 0; round < 2; round++ {
+	newToOld := map[string]string{} // current id -> recorded id of matched functions
+	resolved := map[string]bool{}
+	// rounds 0..3: same receiver type (modulo renames); rounds 4..5: a method whose receiver was
+	// dropped (a method -> function conversion keeps the parameter list only if the receiver was unused)
+	for round := 0; round < 6; round++ {
+		dropped := round >= 4
+		progress := false
 		for _, id := range missing {
-			if _, done := p.funcByID[id]; done {
+			if resolved[id] {
 				continue
 			}
 			want := recorded[id]
-			if round == 1 && want.Recv == "" {
+			if dropped && want.Recv == "" {
 				continue
 			}
-			var best *ssa.Function
+			wRecv, wSig := normOld(want.Pkg, want.Recv), normOld(want.Pkg, want.Sig)
+			wCallees := normList(want.Pkg, want.Callees, normOld)
+			var best *anchorUnit
 			bestScore, second := 0.0, 0.0
-			for _, cand := range added[want.Pkg] {
-				if taken[cand] {
+			for i := range added[want.Pkg] {
+				cand := &added[want.Pkg][i]
+				if taken[cand.Fn] {
 					continue
 				}
-				fp := fingerprint(cand)
-				if fp.Sig != want.Sig {
+				fp := fingerprintOf(cand.Fn, cand.Body)
+				if normNew(fp.Pkg, fp.Sig) != wSig {
 					continue
 				}
-				if round == 0 && fp.Recv != want.Recv {
+				if !dropped && normNew(fp.Pkg, fp.Recv) != wRecv {
 					continue
 				}
-				if round == 1 && fp.Recv != "" {
+				if dropped && fp.Recv != "" {
 					continue
 				}
-				s := jaccard(fp.Callees, want.Callees)
+				callees := make([]string, len(fp.Callees))
+				for j, c := range fp.Callees {
+					if old, ok := newToOld[c]; ok {
+						callees[j] = normOld(want.Pkg, old)
+					} else {
+						callees[j] = normNew(fp.Pkg, c)
+					}
+				}
+				s := jaccard(callees, wCallees)
+				if shortName(cand.ID) == shortName(id) {
+					s += 0.2 // same method name on a renamed receiver type
+				}
 				if s > bestScore {
 					second = bestScore
 					bestScore, best = s, cand
@@ -177,11 +311,21 @@ func (p *Program) resolveRenames() {
 				}
 			}
 			if best != nil && bestScore >= 0.6 && bestScore-second >= 0.15 {
-				taken[best] = true
-				p.funcByID[id] = best
-				p.alias[best] = id
-				p.Renames = append(p.Renames, fmt.Sprintf("%s is now %s (callee similarity %.2f)", id, funcID(best), bestScore))
+				taken[best.Fn] = true
+				resolved[id] = true
+				progress = true
+				newToOld[best.ID] = id
+				if best.Fn == best.Body {
+					p.funcByID[id] = best.Fn
+				}
+				p.alias[best.Fn] = id
+				p.Renames = append(p.Renames, fmt.Sprintf("%s is now %s (callee similarity %.2f)", id, best.ID, min(bestScore, 1.0)))
 			}
+		}
+		if !progress && round < 3 {
+			round = 3 // go on with the receiver-dropped rounds
+		} else if !progress {
+			break
 		}
 	}
 }
